@@ -159,6 +159,7 @@ fn c02(tier: Tier) -> Vec<SeqCfg> {
     }
     a.push(store(StoreKind::Add, K1, b"a", 4, 0, Zero));
     a.push(store(StoreKind::Add, K1, b"a", 4, 0, Arb(0x1234)));
+    a.push(store(StoreKind::Add, K1, b"a", 4, 0, Current));
     a.push(prepend(K1, b"-", Current));
     a.push(decr(K1, 1, 10, 0, CurrentPlus1));
     a.push(delete(K1, Max));
@@ -230,6 +231,8 @@ fn c06(tier: Tier) -> Vec<SeqCfg> {
         replace(K1, b"base", 7, 0),
         replace(K1, b"", 9, 2),
         add(K1, b"base", 8, 0),
+        store(StoreKind::Add, K1, b"X", 8, 0, CasArg::Current),
+        store(StoreKind::Replace, K1, b"Y", 8, 0, CasArg::CurrentPlus1),
         set(K1, b"R", 0xdeadbeef, 0),
         append(K1, b"", Zero),
         append(K1, &[0u8, 0xff], Zero),
@@ -303,6 +306,8 @@ fn c08(tier: Tier) -> Vec<SeqCfg> {
         a.push(delete(k, Zero));
     }
     a.push(set(K1, b"w", 7, 2));
+    a.push(store(StoreKind::Set, K1, b"again", 8, 0, Current));
+    a.push(store(StoreKind::Replace, K2, b"again", 9, 0, Zero));
     a.push(delete(K1, Current));
     a.push(delete(K1, Stale1));
     a.push(delete(K2, CurrentPlus1));
